@@ -95,6 +95,9 @@ func (ex *Exec) heap(st *State, name, sort string) Term {
 // the field's Go type (well-typedness of the heap).
 func (ex *Exec) typeHeap(name string, h Term) {
 	t, ok := ex.heapElemType[name]
+	if !ok && strings.HasSuffix(name, "#len") {
+		t, ok = types.Typ[types.Uint32], true
+	}
 	if !ok || ex.cx.mode != "int" || !isInteger(t) || elemSortOf(h.Sort) != SInt {
 		return
 	}
